@@ -93,7 +93,7 @@ func RunOne(t *testing.T, cfg *RunCfg, keepLog bool) *Result {
 			res.Steps = sim.Stats.Steps
 			res.Choices = sim.Stats.ChoicePoints
 			res.SimMs = e.Now().Milliseconds()
-			res.Sig = fmt.Sprintf("%016x", sim.Signature())
+			res.Sig = fmt.Sprintf("%016x", sim.Signature()^e.Shape())
 			res.Digest = e.Digest()
 			res.Stats = sim.Stats
 			res.Probes = e.Probes
